@@ -160,6 +160,40 @@ def run_group(harnesses, timeout_s, jobs, extra_args=None, playback=False, log_p
     return results, out
 
 
+def resolve_unwindset(harness_full, rules, log_path=None):
+    """Per-loop / per-recursion bounds for one harness, regenerated on every run (DESIGN.md F16).
+
+    rules: list of (kind, regex, bound), kind in {"loop", "recursion"}. Phase 1 lets Kani build the
+    harness' final goto binary (normal run, 1 s harness timeout, result ignored); the loop ids are then
+    read from it with `cbmc --show-loops` and matched against the regexes (on the mangled id). A
+    "recursion" rule bounds the recursion of every function owning a matching loop id (CBMC keys
+    recursion bounds by function identifier). Returns (extra cargo-kani args, {id: bound}).
+    Unwinding assertions stay on: a bound that is too small is reported, never silently cut."""
+    import glob
+    run_group([harness_full], 1, 1, log_path=log_path)
+    short = harness_full.split("::")[-1]
+    pat = os.path.join(KANI_TARGET, "kani", "*", "debug", "build", "btdht", "*", "out", f"*{len(short)}{short}.out")
+    cands = sorted(glob.glob(pat), key=os.path.getmtime)
+    if not cands:
+        return None, {}
+    try:
+        out = subprocess.run(["cbmc", "--show-loops", cands[-1]], stdout=subprocess.PIPE, stderr=subprocess.DEVNULL,
+                             text=True, timeout=300).stdout
+    except subprocess.TimeoutExpired:
+        return None, {}
+    ids = re.findall(r"^Loop (\S+):$", out, re.M)
+    chosen = {}
+    for kind, rx, bound in rules:
+        for lid in ids:
+            if re.search(rx, lid):
+                key = lid if kind == "loop" else lid.rsplit(".", 1)[0]
+                chosen[key] = bound
+    if not chosen:
+        return None, {}
+    arg = ",".join(f"{k}:{v}" for k, v in sorted(chosen.items()))
+    return ["--cbmc-args", "--unwindset", arg], chosen
+
+
 def _q(s):
     if re.match(r"^[A-Za-z0-9_./:=,+-]+$", s):
         return s
